@@ -331,6 +331,25 @@ def check_key_threads(case, ctx):
                 judge("C05/key-threads[%s]" % req, what, v, exp[parts[1] if comp else "p2pkh_uncompressed"])
 
 
+def _cold_build(it):
+    from vlib.cold import enc
+    kind, k, msg, testnet = it
+    pt = secp.mul_g(k)
+    if kind == "hash160":
+        return (["helper", "hash160", [{"hex": msg.hex()}]], enc(hashes.hash160(msg)), "hash160(%d bytes)" % len(msg))
+    if kind == "ripemd160":
+        return (["ripemd", "ripemd160", [{"hex": msg.hex()}]],
+                enc(hashlib.new("ripemd160", msg).digest() if hashes.HAVE_OPENSSL_RIPEMD else hashes.ripemd160_pure(msg)), "ripemd160(%d bytes)" % len(msg))
+    typ = {"p2pkh": "p2pkh", "p2wpkh": "p2wpkh"}[kind]
+    # the address string is compared after independent decoding in the in-process clauses; here equality with the string
+    # built from the reference hash by the reference encoders is the oracle
+    from vlib.ref import b58, bech
+    h = hashes.hash160(secp.ser_c(pt))
+    want = b58.encode_check(bytes([0x6F if testnet else 0x00]) + h) if typ == "p2pkh" else bech.segwit_encode("tb" if testnet else "bc", 0, h)
+    return (["keys", "PublicKey.parse", [{"hex": secp.ser_c(pt).hex()}], [["address", [True, testnet, typ]]]], want,
+            "PublicKey.parse(..).address(True, %s, %r)" % (testnet, typ))
+
+
 def clauses():
     return [
         Clause("addresses", check_addr,
@@ -366,4 +385,7 @@ def clauses():
                enum=enum_hash, exhaustive=True, enum_desc="every byte length 0..1024 (quick) / 0..4096 (thorough)",
                nontrivial=lambda c: c["n"] % 64 in (55, 56, 57, 58, 59, 60, 61, 62, 63, 0),
                shards={"quick": 8, "thorough": 16}),
+        __import__("vlib.cold", fromlist=["x"]).cold_clause(
+            "C05", st.tuples(st.sampled_from(["hash160", "ripemd160", "p2pkh", "p2wpkh"]), S.scalars(), st.binary(max_size=150), st.booleans()),
+            _cold_build, "hash160 / ripemd160 / PublicKey.address"),
     ]
